@@ -30,6 +30,7 @@ type RunStats struct {
 	Probes     map[string]uint64 `json:"probes"`
 	Ops        int               `json:"ops"`
 	NonTrivial bool              `json:"non_trivial"`
+	Known      map[string]uint64 `json:"known"`
 	Checks     uint64            `json:"checks"`
 }
 
@@ -1086,6 +1087,7 @@ func executeWith(t *testing.T, c *Case, prof *Profile, keepHist bool, pre func(*
 		r.vdir = filepath.Join(dir, "v")
 	}
 	r.stats.Probes = map[string]uint64{}
+	r.stats.Known = map[string]uint64{}
 	os.MkdirAll(r.dir, 0o755)
 	os.MkdirAll(r.vdir, 0o755)
 	if pre != nil {
